@@ -72,6 +72,10 @@ fn val(s: &str) -> Result<Variant, VariantError> {
         }
     }
 
+    // a long enough run of digits is beyond the DOUBLE range
+    if !value.is_finite() {
+        return Err(VariantError::Overflow);
+    }
     // VAL is a DOUBLE function: the result always has that type, also for whole numbers
     let x = Variant::VDouble(value);
     // (there is no negative zero)
